@@ -12,9 +12,8 @@ Theorem C02_clean_same_hash : forall g w b bd reported w1 h bd' w2 w2', record_f
 Proof. exact clean_same_hash. Qed.
 Print Assumptions C02_clean_same_hash.
 
-Theorem C02_clean_implies_recorded_manifest : (forall m1 m2, hash_build m1 = hash_build m2 -> manifest_stream m1 = manifest_stream m2) -> forall g w b bd reported w1 h bd' w2 w2', record_finished w b bd reported = Ok (w1, Some h) -> check_build_dirty g w2 b bd' = (w2', DClean) -> wb_cmdline bd' <> None -> assoc_nat b (ws_hashes w2) = Some h -> exists m0 m, manifest_of w1 bd (disc_of w1 b) = Some m0 /\ hash_build m0 = h /\ manifest_of w2' bd' (disc_of w2 b) = Some m /\ manifest_stream m = manifest_stream m0.
-Proof. exact clean_implies_recorded_manifest. Qed.
-Print Assumptions C02_clean_implies_recorded_manifest.
+(* C02_clean_implies_recorded_manifest was removed: its premise (global injectivity of hash_build) is false by counting
+   (Proofs/HashVacuity.v: hash_build_not_injective), so it said nothing.  The per-comparison form is C02_clean_means_identical. *)
 
 Theorem C02_manifest_stream_injective : forall m1 m2, wf_manifest m1 = true -> wf_manifest m2 = true -> mf_rsp m1 = mf_rsp m2 -> manifest_stream m1 = manifest_stream m2 -> m1 = m2.
 Proof. exact manifest_stream_injective. Qed.
